@@ -535,6 +535,7 @@ type Listener struct {
 	closed  bool
 	waiter  []*verifsim.Task
 	Accepts int
+	Accepted []net.Conn // every connection an Accept call returned
 	CloseCalls int
 }
 
@@ -585,6 +586,11 @@ func (l *Listener) Accept() (net.Conn, error) {
 			l.queue = l.queue[1:]
 			rt.Mu.Unlock()
 			l.Accepts++
+			l.Accepted = append(l.Accepted, c)
+			// the caller can be preempted between Accept's return and its next statement
+			if t != nil {
+				t.Park("listener.accepted " + l.Name)
+			}
 			return c, nil
 		}
 		if t == nil {
